@@ -4,6 +4,7 @@ package harness
 
 import (
 	"fmt"
+	"github.com/spaolacci/murmur3"
 	"sort"
 	"strings"
 	"testing"
@@ -184,6 +185,51 @@ func checkDirIsMapOpt(dir datamodel.Node, want map[string]cid.Cid, nonMembers []
 		l := nd.Lookup(pbString(name))
 		if l == nil || cidOf(l.Link()) != w {
 			return fmt.Errorf("native Lookup(%q) = %v want %s", name, l, w)
+		}
+	}
+	// a name that is NOT an entry but has the full 64-bit name hash of one (16 bytes obtained by running murmur3
+	// backwards), looked up right after that entry was found through every entry point
+	{
+		probes := 0
+		var sortedNames []string
+		for name := range want {
+			sortedNames = append(sortedNames, name)
+		}
+		sort.Strings(sortedNames)
+		for _, name := range sortedNames {
+			w := want[name]
+			if probes >= 4 {
+				break
+			}
+			probes++
+			twin := craftName(murmur3.Sum64([]byte(name)), uint64(len(name))+uint64(probes))
+			if _, isMember := want[twin]; isMember {
+				continue
+			}
+			for ep := 0; ep < 4; ep++ {
+				v, err := dir.LookupByString(name)
+				if c, e := linkOf(v); err != nil || e != nil || c != w {
+					return fmt.Errorf("LookupByString(%q) = %v, %v", name, v, err)
+				}
+				var tv datamodel.Node
+				var terr error
+				switch ep {
+				case 0:
+					tv, terr = dir.LookupByString(twin)
+				case 1:
+					tv, terr = dir.LookupByNode(basicnode.NewString(twin))
+				case 2:
+					tv, terr = dir.LookupBySegment(datamodel.PathSegmentOfString(twin))
+				default:
+					if l := nd.Lookup(pbString(twin)); l != nil {
+						return fmt.Errorf("native Lookup of %x (not an entry; same 64-bit name hash as entry %q, which was looked up just before) found %s", twin, name, l.Link())
+					}
+					continue
+				}
+				if terr == nil {
+					return fmt.Errorf("lookup #%d of %x (not an entry; same 64-bit name hash as entry %q, which was looked up just before) found %v", ep, twin, name, tv)
+				}
+			}
 		}
 	}
 	// Length() is a function of the directory, not of what was done to the node before: ask again after full iterations,
@@ -400,6 +446,32 @@ func TestC02_P_DirIsMap(t *testing.T) {
 		// builders receive the entries in a drawn order
 		es = rapid.Permutation(es).Draw(t, "order")
 		nonMembers := genNonMembers(t, names, fanout)
+		if how == "sharded" && rapid.IntRange(0, 19).Draw(t, "inseparable") == 0 {
+			// two names whose digests agree in every bit this fanout can address (they differ only in the left-over low bits,
+			// or not at all): no HAMT of this fanout can hold both, so the builder has to refuse - building something the
+			// reader cannot look up would not be "that map"
+			u := usableBits(fanout)
+			pair := craftGroupU(rapid.Uint64().Draw(t, "insepBase"), u, 2, uint64(rapid.IntRange(0, 999).Draw(t, "insepSalt")), u)
+			bad := append(append([]entrySpec{}, es...), entryFor(pair[0], salt), entryFor(pair[1], salt))
+			var berr error
+			var broot cid.Cid
+			bst := NewStore()
+			must(t, "build with inseparable names", func() { broot, _, berr = c02Build(bst, bad, how, fanout) })
+			if berr == nil {
+				want := map[string]cid.Cid{}
+				for _, e := range bad {
+					want[e.Name] = e.Cid
+				}
+				dir, err := loadReified(bst.LinkSystem(), broot, "unixfs")
+				if err == nil {
+					err = checkDirIsMapOpt(dir, want, nil, true)
+				}
+				if err != nil {
+					t.Fatalf("C02: fanout %d, %d entries plus two names whose digests agree in all %d addressable bits: the builder returned a directory (%s) that is not the map of its entries: %v", fanout, len(es), u, broot, err)
+				}
+			}
+			ev.Count("inseparable-pair", 1)
+		}
 		var depth int
 		var sharded bool
 		var err error
